@@ -651,8 +651,59 @@ pub fn c13(rep: &mut Report, tier: &str, seed: u64) {
 
 // ------------------------------------------------------------------ C14
 
+/// construction with a failing sink: both constructors must return the error, for every call position
+fn c14_construction() -> crate::report::EnumOutcome {
+    use crate::base::{Fail, Sink, VBuf};
+    use embedded_cli::cli::{Cli, CliBuilder};
+    let mut o = crate::report::EnumOutcome::default();
+    o.name = "construction with a failing sink".into();
+    o.rule = "CliBuilder::build and the deprecated Cli::new with sink call k failing (once / from then on), k over every call of a fault-free construction; non-trivial = the fault fired".into();
+    for ctor in 0..2 {
+        // count the calls of a fault-free construction
+        let n_calls = {
+            let s = crate::session::new_sess(4, 4, "é> ", false);
+            s.cli.__verif_writer().calls
+        };
+        for k in 0..n_calls + 1 {
+            for from in [false, true] {
+                o.evaluations += 1;
+                let mut sink = Sink::default();
+                sink.fail = if from { Fail::From(k) } else { Fail::Once(k) };
+                let r = std::panic::catch_unwind(std::panic::AssertUnwindSafe(|| {
+                    if ctor == 0 {
+                        CliBuilder::default().writer(sink).command_buffer(VBuf::new(4)).history_buffer(VBuf::new(4)).prompt("é> ").build().map(|_| ())
+                    } else {
+                        #[allow(deprecated)]
+                        Cli::new(sink, VBuf::new(4), VBuf::new(4)).map(|_| ())
+                    }
+                }));
+                let case = vec![format!("constructor {} fault at call {} ({})", ctor, k, if from { "from" } else { "once" })];
+                match r {
+                    Err(_) => o.viol("C14/panic-on-sink-error", format!("{:?} panicked", case), case),
+                    Ok(res) => {
+                        if k < n_calls {
+                            o.distinct_nontrivial += 1;
+                            if res.is_ok() {
+                                o.viol("C14/sink-error-swallowed-in-construction", format!("{:?} returned Ok", case), case);
+                            }
+                        } else if res.is_err() {
+                            o.viol("MACHINERY/fault-position", format!("{:?}: error without a fault", case), case);
+                        }
+                    }
+                }
+            }
+        }
+    }
+    o.exhaustive = true;
+    o.samples = vec![serde_json::json!("CliBuilder::build with the first write failing once")];
+    o
+}
+
 pub fn c14(rep: &mut Report, tier: &str, seed: u64) {
     use crate::e5::FaultModel;
+    if REPLAY.get().is_none() {
+        rep.enumerations.push(c14_construction());
+    }
     let quick = tier == "quick";
     let caps = caps(tier);
     let mon = Mon { dispatch: true, invariants: true, ..Default::default() };
